@@ -305,14 +305,14 @@ impl BoundingBox {
 
 //@item src/position.rs :: impl BoundingBox :: fn expand
 //@ replace[R-retself] <<<) -> &Self {>>> => <<<) {>>>
-//@ replace[R-retself] <<<        };\n        self\n    }>>> => <<<        };\n    }>>>
+//@ replace-re[R-retself] <<<;\n\s*self\n\s*\}\s*$>>> => <<<;\n    }>>>
 //@ ensures
 //@ - bx(*final(self)) == (val(old(self).x1) - val(exp_x), val(old(self).y1) - val(exp_y), val(old(self).x2) + val(exp_x), val(old(self).y2) + val(exp_y))     @@C08.expand
 //@end
 
 //@item src/position.rs :: impl BoundingBox :: fn expand_trbl_length
 //@ replace[R-retself] <<<) -> &Self {>>> => <<<) {>>>
-//@ replace[R-retself] <<<        };\n        self\n    }>>> => <<<        };\n    }>>>
+//@ replace-re[R-retself] <<<;\n\s*self\n\s*\}\s*$>>> => <<<;\n    }>>>
 //@ ensures
 //@ - ({ let base = rmax(val(old(self).x2) - val(old(self).x1), val(old(self).y2) - val(old(self).y1));
 //@      bx(*final(self)) == (val(old(self).x1) - len_eval(trbl.left, base), val(old(self).y1) - len_eval(trbl.top, base),
@@ -321,7 +321,7 @@ impl BoundingBox {
 
 //@item src/position.rs :: impl BoundingBox :: fn shrink_trbl_length
 //@ replace[R-retself] <<<) -> &Self {>>> => <<<) {>>>
-//@ replace[R-retself] <<<        };\n        self\n    }>>> => <<<        };\n    }>>>
+//@ replace-re[R-retself] <<<;\n\s*self\n\s*\}\s*$>>> => <<<;\n    }>>>
 //@ ensures
 //@ - ({ let base = rmin(val(old(self).x2) - val(old(self).x1), val(old(self).y2) - val(old(self).y1));
 //@      bx(*final(self)) == (val(old(self).x1) + len_eval(trbl.left, base), val(old(self).y1) + len_eval(trbl.top, base),
@@ -351,7 +351,7 @@ impl BoundingBox {
 
 //@item src/position.rs :: impl BoundingBox :: fn round
 //@ replace[R-retself] <<<) -> &Self {>>> => <<<) {>>>
-//@ replace[R-retself] <<<        };\n        self\n    }>>> => <<<        };\n    }>>>
+//@ replace-re[R-retself] <<<;\n\s*self\n\s*\}\s*$>>> => <<<;\n    }>>>
 //@ ensures
 //@ - encloses(*final(self), *old(self))     @@C08.round.outward
 //@ - is_integral(val(final(self).x1)) && is_integral(val(final(self).y1)) && is_integral(val(final(self).x2)) && is_integral(val(final(self).y2))     @@C08.round.integral
